@@ -154,10 +154,10 @@ func classify(cs Case, env *gobl.Envelope) string {
 // addons or a PT regime (`$regime` or the supplier's tax country).
 func customerRatesWithAddon(data []byte) bool {
 	type head struct {
-		Tags     []string `json:"$tags"`
-		Addons   []string `json:"$addons"`
-		Regime   string   `json:"$regime"`
-		Tax      *struct {
+		Tags   []string `json:"$tags"`
+		Addons []string `json:"$addons"`
+		Regime string   `json:"$regime"`
+		Tax    *struct {
 			Tags []string `json:"tags"` // the earlier place of the tags, still read and moved to $tags
 		} `json:"tax"`
 		Supplier *struct {
